@@ -241,6 +241,11 @@ for _pid, _extra in {
 # entry points / module-level defaults as configurations, thin slices of neighbouring axes (wave m)
 for _pid, _extra in {
     "C01": "The grid also on transports that take 7 bytes / half of each write (the return-value clause under short writes).",
+    "C02": "Also on the object handed out by create_connection() with its defaults.",
+    "C04": "Also on the object handed out by create_connection().",
+    "C05": "Also on the object handed out by create_connection() (all four option combinations).",
+    "C06": "Every end-to-end string (whole, cut once, as close reason) on objects from four entry points: WebSocket() and create_connection() relying on the DEFAULT of the validation option, create_connection(skip_utf8_validation=...) and WebSocket(skip_utf8_validation=...).connect() passing it explicitly.",
+    "C07": "The incremental search also on the object handed out by create_connection().",
     "C08": "close() also with an explicit timeout of 0 / 0.5 / 1 on quiet and talkative servers; the time bound scales with the timeout given.",
     "C10": "Header options that themselves carry Sec-WebSocket-Key / Sec-WebSocket-Version (dict, list, other letter case, value None): exactly one such header, the caller's.",
     "C12": "Senders (2 and 3 threads), receivers and the sender+receiver mix also on the connection handed out by create_connection() with its defaults (real handshake inside the controlled run).",
